@@ -158,6 +158,39 @@ def _c_type_of(words):
     return tuple(sorted(ws))
 
 
+def rule_r7(repo, run):
+    R = run.rule("C09.R7", "a function whose result is moved into an argument becomes `void name(...)`: set_return_to_void resets every "
+                           "field that the printer writes in front of the declarator (qualifiers, type specifier, template "
+                           "arguments), the typemap and the pointer list")
+    dm = repo.module("declast")
+    gd = dm.func("Declaration.gen_decl_work")
+    sv = dm.func("Declaration.set_return_to_void")
+    # statements of the printer up to the one that prints the declarator
+    head = []
+    for st in gd.body:
+        if isinstance(st, ast.If) and "self.declarator" in ast.unparse(st.test):
+            break
+        head.append(st)
+    fields = set()
+    for st in head:
+        for x in ast.walk(st):
+            if isinstance(x, ast.Attribute) and pyflow.is_name(x.value, "self") and isinstance(x.ctx, ast.Load):
+                fields.add(x.attr)
+    fields -= {"attrs", "storage", "metaattrs"}      # attributes and the storage class are not part of the type
+    if not {"const", "specifier", "template_arguments"} <= fields:
+        raise AnalysisError("C09.R7: fields printed in front of the declarator not recognised (%s)" % sorted(fields))
+    assigned = set()
+    for a in ast.walk(sv):
+        if isinstance(a, ast.Assign):
+            for t in a.targets:
+                assigned.add(ast.unparse(t).replace("self.", "", 1))
+    for f_ in sorted(fields | {"typemap", "declarator.pointer"}):
+        run.check(R, "declast.Declaration.set_return_to_void:%s" % f_, f_ in assigned,
+                  "the printer writes `self.%s` as part of the type and set_return_to_void leaves it as it was: the void variant of "
+                  "`std::vector<int> f()` is rendered `void<int> f(...)` / `int f_bufferify(...)`, which does not re-parse and "
+                  "declares a result the body never returns" % f_, dm.loc(sv))
+
+
 def run(repo, run, tier):
     dm = repo.module("declast")
     tm = repo.module("todict")
@@ -561,3 +594,4 @@ def run(repo, run, tier):
     # a native type is rendered for C with the C spelling of the same type (C02.R13)
     from checks import c02
     import_rules(run, R5, c02, repo, {"C02.R13"}, only=lambda c: c.startswith("typemap[") and "c_type" in c)
+    rule_r7(repo, run)
